@@ -217,6 +217,7 @@ def check_refuse(eng, run):
 
         class Refuse(RuleAnalysis):
             tokens = ("Exception",)
+            inline_helpers = True
 
             def __init__(self, eng):
                 super().__init__(eng)
@@ -263,6 +264,7 @@ def check_refuse(eng, run):
     fn = _meth(aa, "serve_forever")
     an = AtomicSection(eng, lambda n: isinstance(n, TestAtom) and "is_shutdown" in ast.unparse(n.test),
                        lambda n: isinstance(n, ast.Assign) and any((dotted(t) or "").endswith("__is_shutdown") for t in n.targets))
+    an.inline_helpers = True
     Interp(an, fn).run()
     ok = bool(an.starts) and bool(an.ends) and all(st == "armed" for _, st in an.ends)
     if not ok:
@@ -323,12 +325,28 @@ def check_latch(eng, run):
 
 
 def _registrations(fn, stack_name):
-    out = []
+    """the registrations on exit stack `stack_name` in program order; those made by a private helper that is handed the stack under
+    its own name (`self.__wake_up_server(server_exit_stack)`) take the place of the call"""
+    from sa.norm import private_helper
+    keyed = []
+    REG = ("callback", "push_async_callback", "enter_context", "enter_async_context", "push")
     for n in own_nodes(fn.node):
-        if isinstance(n, ast.Call) and isinstance(n.func, ast.Attribute) and dotted(n.func.value) == stack_name and n.func.attr in ("callback", "push_async_callback", "enter_context", "enter_async_context", "push"):
-            out.append(n)
-    out.sort(key=lambda n: (n.lineno, n.col_offset))
-    return out
+        if isinstance(n, ast.Call) and isinstance(n.func, ast.Attribute) and dotted(n.func.value) == stack_name and n.func.attr in REG:
+            keyed.append(((n.lineno, n.col_offset, 0, 0), n))
+        elif isinstance(n, ast.Call) and any(isinstance(a, ast.Name) and a.id == stack_name for a in n.args):
+            g = private_helper(fn, n)
+            if g is not None and not isinstance(g.node, ast.Lambda) and any(a.arg == stack_name for a in g.params()):
+                for m in own_nodes(g.node):
+                    if isinstance(m, ast.Call) and isinstance(m.func, ast.Attribute) and dotted(m.func.value) == stack_name and m.func.attr in REG:
+                        keyed.append(((n.lineno, n.col_offset, m.lineno, m.col_offset), m))
+    keyed.sort(key=lambda kv: kv[0])
+    return [n for _k, n in keyed]
+
+
+def _nodes_with_helpers(fn):
+    """the nodes of `fn` and of the private helpers it calls (a block of the function moved into a method of the same class)"""
+    from sa.norm import nodes_inl
+    return [n for n, _o in nodes_inl(fn)]
 
 
 def _outer_stack(fn):
@@ -354,7 +372,7 @@ def check_tear(eng, run):
         cbs = [r for r in regs if r.func.attr in ("callback", "push_async_callback")]
         # the shutdown event: the attribute itself or a local bound in the same statement as the attribute
         ev_names = {"self.__is_shutdown"}
-        for n in own_nodes(fn.node):
+        for n in _nodes_with_helpers(fn):
             if isinstance(n, ast.Assign) and any((dotted(t) or "").endswith("__is_shutdown") for t in n.targets):
                 ev_names |= {dotted(t) for t in n.targets if dotted(t)}
                 if isinstance(n.value, ast.Name):  # `ev = create_event(); self.__is_shutdown = ev`
@@ -405,7 +423,7 @@ def check_tear(eng, run):
         return not isinstance(g.node, ast.Lambda) and any(isinstance(x, ast.Assign) and any((dotted(t) or "").endswith("__server_run_scope") for t in x.targets)
                                                           and isinstance(x.value, ast.Constant) and x.value.value is None for x in own_nodes(g.node))
     resetters |= {f"{fn.self_name}.{m.name}" for m in aa.methods.values() if m.name.startswith("_") and resets_scope(m)}
-    ok = any(isinstance(n, ast.Call) and _cname(n) == "callback" and n.args and dotted(n.args[0]) in resetters for n in own_nodes(fn.node))
+    ok = any(isinstance(n, ast.Call) and _cname(n) == "callback" and n.args and dotted(n.args[0]) in resetters for n in _nodes_with_helpers(fn))
     if not ok:
         run.finding("C18.tear", fn, fn.node, "the run scope is not reset by an exit callback")
     run.ob("C18.tear", f"{fn.short}:run-scope-reset", ok)
